@@ -570,6 +570,8 @@ package store
 //@   ensures [C06] coherent: hdrCacheOK() && dsHdrOK()
 //@   ensures [C06] resolves: result1 == nil ==> onChain(result0) && old(dsHas)[key] && result0.Hash() == unjsonHash(old(dsVal)[key])
 //@   ensures [C06] zero-on-error: result1 != nil ==> result0.IsZero()
+//@   ghost gerr error := result1 of call (*Store).Get #0
+//@   ensures [C06] dangling-is-not-found: called(gerr) && errors.Is(gerr, header.ErrNotFound) ==> result1 != nil && errors.Is(result1, header.ErrNotFound) -- a pointer whose header is gone (crash between the deletions and the pointer update) reads as 'not found', also when dropping the pointer key fails: that is what lets init skip it instead of failing Start
 //@   ensures [C06] absent-is-not-found: !old(dsHas)[key] ==> result1 != nil && errors.Is(result1, header.ErrNotFound) && dsHas == old(dsHas)
 //@   ensures [C06] only-the-pointer-goes: forall k Key @ dsHas[k] :: k != key ==> (dsHas[k] <==> old(dsHas)[k])
 //@   ensures [C06] kept-when-resolved: result1 == nil ==> dsHas == old(dsHas)
@@ -592,6 +594,7 @@ package store
 //@   props C14
 //@   ghost herr error := result0 of call fn #0
 //@   ensures [C14] handler-error-returned: called(herr) && herr != nil ==> result != nil
+//@   ensures [C14] handler-panic-is-an-error: !called(herr) ==> result != nil -- whatever value the handler panicked with
 
 // ---- the write path as a whole (C03/C04/C17): everything that reaches the single writer is a batch of chain
 // headers (channel invariant of Store.writes, established by Append), and every step of the flush loop starts
@@ -604,11 +607,12 @@ package store
 //@   ensures [C04] queued-or-refused: result == nil ==> len(headers) == 0 || sent("Store.writes") == old(sent("Store.writes")) + 1
 
 //@ func (*Store).flushLoop(s, ctx)
-//@   props C04, C06
+//@   props C04, C06, C17
 //@   requires storeINV(s) && !isBatch(s.ds) && s.pending != nil
 //@   modifies $now, ghost:hcHas, ghost:hcVal, ghost:icHas, ghost:icVal, ghost:btHas, ghost:btPuts, ghost:btVal, ghost:dsHas, ghost:dsVal, ghost:dsWrites, AP_set, AP_val_Hdr, AT_u64, MH_Int_Hdr_has, MH_Int_Hdr_val, MH_Str_Int_has, MH_Str_Int_val, sub.count, MH_Int_Int_has, MH_Int_Int_val, ghost:arrived
 //@   ensures [C04] inv: storeINV(s)
 //@   ensures [C06] drained-at-exit: forall h uint64 @ has(s.pending.headers, h) :: !has(s.pending.headers, h) -- the loop only ends on the stop signal, after flushing everything it accepted
+//@   before close [C04,C17] answered-only-when-drained: arg0 != s.writesDn ==> sawEmpty("Store.writes") -- a Sync request is answered only after a non-blocking receive found the write queue empty: every Append that returned before Sync was called has been applied
 //@ loop 0:
 //@   invariant inv: storeINV(s) && !isBatch(s.ds) && s.pending != nil
 //@ loop 1:
